@@ -266,7 +266,7 @@ theorem ci_total_admg (G : MG Nat) (hG : G.WF) (hA : G.Acyclic) (topological : B
     obtain ⟨R, hR⟩ := ci_total (nodup_vertexList G) (goodTest_dSeparated G hG) (.topological o) maxC ra
       (fun order h v hv => by
         cases h
-        exact topologicalSort_complete G o ho v ((mem_vertexList G v).1 hv))
+        exact topologicalSort_complete G hG o ho v ((mem_vertexList G v).1 hv))
     exact ⟨R, by simpa [conditionalIndependencies, ho, bind, Except.bind, pure, Except.pure] using hR⟩
 
 end MG
